@@ -408,5 +408,26 @@ def mon_deadlock(case, lines):
     return None
 
 
-MONITORS = {'fault': mon_fault, 'ledger': mon_ledger, 'contents': mon_contents, 'traversal': mon_traversal,
+
+def mon_read_spins(case, lines):
+    """C14: lock_read / begin / ++ / * are wait-free: inside one such operation no atomic location is loaded twice
+    (a second load of the same location means the reader is polling for a writer's progress)"""
+    cur, seen = {}, {}
+    for i, l in enumerate(lines):
+        if len(l) != 5 or l[0] < 0:
+            continue
+        t, k, o, v, m = l
+        if k == K['INVOKE']:
+            cur[t] = v
+            seen[t] = set()
+        elif k in (K['RET'], K['CATCH']):
+            cur.pop(t, None)
+        elif cur.get(t) in (BEGIN, NEXT, DEREF, ISEND) and k in (K['LOAD'], K['LOAD'] + PTR):
+            if o in seen[t]:
+                return 'thread %d: operation %d loads obj%d a second time at trace line %d: the read polls instead of being wait-free' % (t, cur[t], o, i)
+            seen[t].add(o)
+    return None
+
+
+MONITORS = {'read_spins': mon_read_spins, 'fault': mon_fault, 'ledger': mon_ledger, 'contents': mon_contents, 'traversal': mon_traversal,
             'read_mutex': mon_read_mutex, 'deadlock': mon_deadlock}
